@@ -8,7 +8,9 @@ from .ref import RefOvld, kinds_match
 
 PROP = "C03"
 
-from ovld import Ovld  # noqa: E402
+import typing  # noqa: E402
+
+from ovld import Dependent as ovld_Dependent, Ovld  # noqa: E402
 
 # ----------------------------------------------------------------------------------------
 # signature space
@@ -56,12 +58,14 @@ def c03_spaces(tier):
         sp.append(("single", S, None, ("int", "O"), None, ("uniform",), ("plain", "self"), ("ret", "raise", "ret-rw")))
         sp.append(("pairs", S, S, ("int",), ("str", "O"), ("uniform",), ("plain",), ("ret",)))
         sp.append(("pairs-names-carriers", R, R, ("int",), ("str", "O"), ("uniform", "differing"), ("plain", "self", "selfovld"), ("ret", "raise", "ret-rw")))
+        sp.append(("dependent-above-plain", R, R, ("Lhit", "Lmiss", "Dhit", "Dmiss"), ("int", "O"), ("uniform",), ("plain", "self"), ("ret",)))
     else:
         S = sigs(POS_CONFIGS + POS3, KW_FULL)
         R = sigs(POS_CONFIGS, KW_QUICK)
         sp.append(("single", S, None, ("int", "str", "O"), None, ("uniform",), ("plain", "self", "selfovld"), ("ret", "raise", "ret-rw")))
         sp.append(("pairs", S, S, ("int", "O"), ("str", "O", "int"), ("uniform",), ("plain",), ("ret",)))
         sp.append(("pairs-names-carriers", R, R, ("int",), ("str", "O"), ("uniform", "differing"), ("plain", "self", "selfovld"), ("ret", "raise", "ret-rw")))
+        sp.append(("dependent-above-plain", R, R, ("Lhit", "Lmiss", "Dhit", "Dmiss"), ("int", "O", "str"), ("uniform", "differing"), ("plain", "self", "selfovld"), ("ret", "ret-rw")))
         T = sigs(POS_CONFIGS, KW_SMALL)
         sp.append(("triples", T, T, ("int",), ("str",), ("uniform",), ("plain",), ("ret",)))
     return sp
@@ -120,14 +124,28 @@ class Val:
         self.kw = {nm: int(f"{2000 + j}") for j, nm in enumerate(("k", "j"))}
 
 
-CLASSES = {"int": int, "str": str, "O": object}
+# value-dependent annotations over int: "hit" ones accept the int that Val puts into the first slot (1000), "miss" ones
+# accept no value of the corpus, so that the generated dependent dispatcher takes its fall-through branch
+DEP_SEM = {"Lhit": lambda v: type(v) is int and v == 1000, "Lmiss": lambda v: False,
+           "Dhit": lambda v: isinstance(v, int) and v == 1000, "Dmiss": lambda v: False}
+CLASSES = {"int": int, "str": str, "O": object,
+           "Lhit": typing.Literal[1000], "Lmiss": typing.Literal[999],
+           "Dhit": ovld_Dependent[int, lambda v: v == 1000], "Dmiss": ovld_Dependent[int, lambda v: False]}
 
 
 class Sem:
     def instance(self, v, t):
+        if t in DEP_SEM:
+            return DEP_SEM[t](v)
         return isinstance(v, CLASSES[t])
 
     def leq(self, a, b):
+        if a == b:
+            return True
+        if a in DEP_SEM:
+            return b in ("int", "O")
+        if b in DEP_SEM:
+            return False
         return issubclass(CLASSES[a], CLASSES[b])
 
 
@@ -338,7 +356,9 @@ def main(tier):
         PROP, tier, "model_checking", merged, t0,
         rule="signature sets (1-2, thorough 3 methods; 0-2 (3) positionals in every valid combination of positional-only / "
              "positional-or-keyword x required / optional; keyword-only k, j required / optional; uniform or differing "
-             "names; function / bound method through the entry point / through the Ovld descriptor) x every call shape "
+             "names; function / bound method through the entry point / through the Ovld descriptor; plus pairs in which the first "
+             "method's positionals carry a value-dependent annotation (Literal / Dependent, one that accepts the passed value and "
+             "one that accepts none, so that the generated dependent dispatcher falls through to the plain method)) x every call shape "
              "(0..max+1 positionals x int/str per slot x every subset of {k, j} x positionals-by-keyword where documented) "
              "x both entry points, each on a fresh function; oracle R1-R3 + identity of every binding, default, result "
              "and exception; non-trivial = accepted call that omits an optional positional or passes a keyword",
